@@ -220,6 +220,8 @@ def values_equal(a, b):
         return True
     if isinstance(a, tuple) and isinstance(b, tuple) and a and b and a[0] == b[0] == 'class':
         return a[1] is b[1]
+    if (isinstance(a, tuple) and isinstance(b, Const)) or (isinstance(b, tuple) and isinstance(a, Const)):
+        return False
     return None
 
 
@@ -1324,6 +1326,23 @@ class SymEx:
                     return [(st, p[1])]
                 if all(values_equal(q[0], args[0]) is False for q in recv.pairs):
                     return [(st, args[1] if len(args) > 1 else Const(None))]
+                if recv.pairs and all(isinstance(q[0], Const) for q in recv.pairs) and isinstance(args[0], (Sym, CallV)):
+                    # a constant table consulted with a symbolic key: one path per key, one for "none of them"
+                    outs = []
+                    cur = st
+                    for k, v in recv.pairs:
+                        nxt = None
+                        for br, s2 in self.compare(ast.Eq(), args[0], k, cur, e):
+                            if br:
+                                outs.append((s2, v))
+                            else:
+                                nxt = s2
+                        if nxt is None:
+                            break
+                        cur = nxt
+                    else:
+                        outs.append((cur, args[1] if len(args) > 1 else Const(None)))
+                    return outs
             if name == 'setdefault' and args:
                 p = find(args[0])
                 if p is not None:
